@@ -113,6 +113,7 @@ class Facts:
         self.fns = collections.defaultdict(list)    # id -> [fn records]
         self.by_name = collections.defaultdict(list)  # qualified name -> [fn records]
         self.recs = {}
+        self.rec_list = []
         self.enums = {}
         self.vars = collections.defaultdict(list)
         self._bodies = {}
@@ -129,6 +130,7 @@ class Facts:
                         self.by_name[d['name']].append(d)
                     elif K == 'rec':
                         self.recs.setdefault(d['name'], d)
+                        self.rec_list.append(d)
                     elif K == 'enum':
                         self.enums.setdefault(d['name'], d)
                     elif K == 'var':
